@@ -64,8 +64,11 @@ def sense_strategy():
     # buffers too short to carry key/ASC/ASCQ (autosense cut short), down to no sense at all
     short = st.one_of(st.just(b""), st.binary(max_size=7),
                       st.binary(min_size=1, max_size=13).map(lambda x: bytes([0x70 | (x[0] & 0x81)]) + x[1:]))
+    # response codes outside 70h-73h (reserved / vendor specific 7Fh): the bytes are still the target's
+    other = st.tuples(st.integers(0, 0x7F).filter(lambda x: not 0x70 <= x <= 0x73), st.booleans(),
+                      st.binary(min_size=3, max_size=40)).map(lambda t: bytes([t[0] | (0x80 if t[1] else 0)]) + t[2])
     return st.one_of(
-        short,
+        short, other,
         st.tuples(st.integers(0, 15), byte, byte, st.booleans(), st.integers(0, 1), st.integers(0, 234),
                   st.binary(max_size=9), st.sampled_from([0, 0, 0, 4, 18])).map(fixed),
         st.tuples(st.integers(0, 15), byte, byte, st.booleans(),
@@ -127,6 +130,9 @@ def judge(outcome, exc, status, sense, raw, transport, dev, cmd):
             return  # too short to carry key/ASC/ASCQ: any exception distinguishes it from success
         expect(type(exc).__name__ == "CheckCondition" and isinstance(exc, dev.CheckCondition),
                "mismatch:check_condition_wrong_error", got=type(exc).__name__, error=repr(exc)[:200])
+        if raw and cmd.raw_sense_data is not None:
+            expect(bytes(cmd.raw_sense_data) == bytes(sense), "mismatch:raw_sense_modified", got=cmd.raw_sense_data,
+                   want=sense)
         if (sense[0] & 0x7F) not in (0x70, 0x71, 0x72, 0x73):
             return
         key, asc, ascq = sense_fields(sense)
